@@ -142,6 +142,14 @@ theorem timers_never_past (progs : List (List Op)) (ties : List Nat) (fuel : Nat
     ∀ t ∈ (run fuel (initSt progs ties)).k.timers, (run fuel (initSt progs ties)).now ≤ t.date :=
   (run_sinv fuel _ (initSt_sinv progs ties)).d.tim
 
+/-- **progress**: when the run stops (`done`: nothing to run, no next event) no timer and no action is left pending —
+so every timer set during the run was executed (at exactly its date, `timer_exact`) or removed (completion of the
+wait, death of the actor), and every action was completed or canceled. -/
+theorem no_pending_at_end (progs : List (List Op)) (ties : List Nat) (fuel : Nat)
+    (hd : (run fuel (initSt progs ties)).done = true) :
+    (run fuel (initSt progs ties)).k.timers = [] ∧ (run fuel (initSt progs ties)).k.heap = [] :=
+  run_noPend fuel _ (initSt_sinv progs ties) (by intro h; simp [initSt] at h) hd
+
 /-- **kill_time_exact** (full, run level): a kill timer fires at exactly the kill time … -/
 theorem kill_time_exact (progs : List (List Op)) (ties : List Nat) (fuel : Nat) (a : Nat) :
     ∀ x ∈ (run fuel (initSt progs ties)).fired, x.2.cb = .kill a → x.1 = x.2.date :=
@@ -203,6 +211,19 @@ theorem no_stale_registration (progs : List (List Op)) (ties : List Nat) (fuel :
     ((k.actor a).pending.isSome = true → (k.actor a).blocked = true) :=
   reachable_registration progs ties fuel a hwd
 
+/-- **a sleeper is woken by nothing else** (run level, consequence of `no_stale_registration`): in every reachable
+state, `finish()` of an activity `j` leaves untouched every non-dying actor that does not wait for `j` — in
+particular an actor blocked in `sleep_for`, whose `waiting_synchros_` is its sleep activity: no other completion
+answers it; and (`timeout_of_other_actor_is_inert`, any state) neither does the timeout of another actor's wait. -/
+theorem completion_wakes_only_waiters (progs : List (List Op)) (ties : List Nat) (fuel : Nat) (a j : Nat)
+    (hwd : ((run fuel (initSt progs ties)).k.actor a).wannadie = false)
+    (hj : j ∉ ((run fuel (initSt progs ties)).k.actor a).waiting) :
+    ((run fuel (initSt progs ties)).k.finish j).actor a = (run fuel (initSt progs ties)).k.actor a :=
+  finish_other _ j a (run_ri fuel _ (initSt_ri progs ties)).reg hwd hj
+
+theorem timeout_of_other_actor_is_inert (k : K) (t : Timer) (b a : Nat) (hcb : cbActor t.cb = some b) (h : a ≠ b) :
+    (k.fire t).actor a = k.actor a := fire_timeout_other k t b a hcb h
+
 /-- **regression of 4c67abe5fd**: with the double registration of the old `MessImpl::wait_for`
 (`K.handleWaitForOld`), the state after the timeout has the actor answered but still registered on the message:
 the invariant fails (the fixed code, `kNewFired_clean`, leaves it registered nowhere). -/
@@ -228,6 +249,18 @@ example (s : St) (t : Timer) (h : s.k.timers = [t]) (hd : t.date = s.now) :
     (execAll 1 s false).1.fired = s.fired ++ [(s.now, t)] := by
   have : ¬ (s.now < s.now) := Rat.lt_irrefl
   simp [execAll, h, hd, minDate, pick, List.range, List.range.loop, this]
+
+/-- a run that is over (`no_pending_at_end`): the empty simulation stops at once -/
+example : (run 1 (initSt [] [])).done = true := by
+  simp [run, step, initSt, outer_eq, outerPast, outerDelta, minDate, timeDelta, solveStep, outerTail, timersLoop,
+    execAll, K.handleEndedAll, K.handleEnded, K.alive]
+
+/-- hypotheses of `completion_wakes_only_waiters`: an actor that waits for nothing -/
+example : ((run 0 (initSt [[.sleep 1]] [])).k.actor 0).wannadie = false ∧
+    5 ∉ ((run 0 (initSt [[.sleep 1]] [])).k.actor 0).waiting := by
+  simp [run, initSt, K.actor]
+
+example : cbActor (Cb.wto 1 0) = some 1 ∧ (0 : Nat) ≠ 1 := by simp [cbActor]
 
 /-- the hypothesis of `no_stale_registration` holds for the actors of an initial state -/
 example : ((run 0 (initSt [[.sleep 1]] [])).k.actor 0).wannadie = false := by
